@@ -109,6 +109,16 @@ def work_public(chunk):
 
     res = common.Result()
     for case in chunk:
+        if case.get("empty_priv"):
+            outcome, clear = empty_priv_password_case(case)
+            res.count("calls", 2)
+            res.distinct()
+            res.outcome("empty-priv-password:" + outcome)
+            if clear:
+                res.violation("public-user/empty-priv-password/sent-without-privacy", "a user with an (empty) privacy password: %s - outcome of the calls: %s" % (clear[0], outcome), case)
+            elif outcome == "PanicException":
+                res.violation("public-user/empty-priv-password/panic", "PanicException", case)
+            continue
         auth, priv, kt, klen, disc = case["auth"], case["priv"], case["kt"], case["klen"], case["discover"]
         pkt = case.get("pkt", kt)
         ks = refcrypto.KEYLEN[auth]
@@ -222,6 +232,56 @@ def _public_world(responder, kw):
     return {"session": session, "close": close}
 
 
+def empty_priv_password_case(case):
+    """A user configured with a privacy key whose password is empty: the session must refuse it (as the raw socket
+    does) - what must never happen is a request leaving without privacy."""
+    mod, fast = drivers.subject()
+    from gufo.snmp import SnmpVersion
+    from gufo.snmp.user import Aes128Key, DesKey, KeyType, Md5Key, Sha1Key, User
+
+    auth, priv, disc = case["auth"], case["priv"], case["discover"]
+    eid = b"\x80\x00\x1f\x88\x04engine"
+    captured = []
+
+    def responder(data, idx):
+        captured.append(data)
+        r = rb.parse_message(data, strict=False)
+        if not r.engine_id:
+            vb = [((1, 3, 6, 1, 6, 3, 15, 1, 1, 4, 0), b"\x41\x01\x01")]
+            scoped = rb.build_scoped(eid, b"", rb.build_pdu(rb.PDU_REPORT, 0, 0, 0, vb))
+            return [rb.build_v3(r.msg_id, 0, rb.build_usm(eid, 3, 100, b"", b"", b""), scoped)]
+        return []
+
+    outcome = "accepted"
+    w = None
+    try:
+        user = User("nopw", auth_key={1: Md5Key, 2: Sha1Key}[auth](b"authpassword1", key_type=KeyType.Password), priv_key={1: DesKey, 2: Aes128Key}[priv](b"", key_type=KeyType.Password))
+        kw = dict(version=SnmpVersion.v3, user=user, timeout=0.2)
+        if not disc:
+            kw["engine_id"] = eid
+        w = _public_world(responder, kw)
+        s = w["session"]
+        if disc:
+            s.refresh()
+        s.get("1.3.6.1.2.1.1.5.0")
+    except BaseException as e:  # noqa: BLE001
+        if isinstance(e, (KeyboardInterrupt, SystemExit, MemoryError)):
+            raise
+        outcome = type(e).__name__
+    finally:
+        if w:
+            w["close"]()
+    clear = []
+    for d in captured:
+        try:
+            r = rb.parse_message(d, strict=False)
+        except rb.StrictError:
+            continue
+        if r.engine_id and r.oids and not (r.flags & 2):
+            clear.append("flags %02x, OIDs %s readable" % (r.flags, [rb.oid_str(o) for o in r.oids]))
+    return outcome, clear
+
+
 # ------------------------------------------------------------------ malformed material
 
 
@@ -317,6 +377,11 @@ def gen_installed(tier):
                     yield {"cfgs": [cfg.describe()], "history": ([["discover", 0, 2]] if disc else []) + hist}
                     if disc and n in (8, 64):
                         yield {"cfgs": [cfg.describe()], "history": [["discover", 0, 301]] + hist}
+    # a refused key installation leaves the installed keys in place
+    for auth, priv in ((1, 1), (2, 2), (1, 2), (2, 1)):
+        for how in ("authlen", "privlen", "privempty", "privalg"):
+            cfg = Cfg("v3", auth=auth, priv=priv)
+            yield {"cfgs": [cfg.describe()], "history": [["get", 0, "sys"], ["set_keys_bad", 0, how], ["get", 0, "sys"], ["reply", 0, "ok", 1], ["refresh", 0], ["get_many", 0, "pair"]]}
     # identical octets for both keys, every pair of key types
     for auth, priv in ((1, 1), (2, 2), (1, 2), (2, 1)):
         for kt, pkt in itertools.product((0, 1, 2), repeat=2):
@@ -381,6 +446,8 @@ def run(tier):
                     continue
                 for klen in (5, 16 if auth == 1 else 20, 25) + ((1, 15, 21, 40) if thorough else ()):
                     pub.append({"auth": auth, "priv": priv, "kt": kt, "pkt": pkt, "klen": klen, "discover": disc})
+    for auth, priv, disc in itertools.product((1, 2), (1, 2), (False, True)):
+        pub.append({"empty_priv": True, "auth": auth, "priv": priv, "discover": disc, "kt": 0, "klen": 0})
     common.run_cases(rec, work_public, pub, chunk=6)
     mal = [{"kind": k} for k in ("localized_master_len", "alg_codes", "empty_password", "socket_key_len", "socket_alg_codes")]
     common.run_cases(rec, work_malformed, mal, chunk=1)
